@@ -335,7 +335,7 @@ class ConjunctionVerdict:
 
     def __init__(self, r, cg, is_prim, what, follow=True, kind_of=vector_kind):
         self.r, self.cg, self.is_prim, self.what, self.follow, self.kind_of = r, cg, is_prim, what, follow, kind_of
-        self.memo, self.stack, self._has, self.reported = {}, [], {}, set()
+        self.memo, self.stack, self._has, self.reported, self.tvs = {}, [], {}, set(), {}
 
     # -- where the primitive lives
     def has_prim(self, g, depth=3):
@@ -491,6 +491,7 @@ class ConjunctionVerdict:
 
     def _explore(self, g, tv):
         cfg = g.cfg()
+        self.tvs[g.qual] = tv
         heads = {}
         for n in cfg.nodes:
             if n.kind == "iter":
@@ -593,9 +594,9 @@ class ConjunctionVerdict:
 
     # -- the property of the entry point
     def judge(self, fn, tv):
-        outs = self.summary(fn, tv)
         if not self.has_prim(fn):
             raise AnchorVanished("%s no longer evaluates the %s" % (short(fn), self.what))
+        outs = self.summary(fn, tv)
         unknown = []
         for (v, f, t, d), (of, node, w) in sorted(outs.items(), key=lambda x: repr(x[0])):
             show = {True: "True", False: "False", None: "None", "?": "an undetermined value"}[v]
@@ -610,21 +611,13 @@ class ConjunctionVerdict:
             elif not f and not d:
                 loops = [x for x in func_own_nodes(of) if isinstance(x, (ast.For, ast.While, ast.ListComp, ast.GeneratorExp,
                                                                          ast.SetComp, ast.DictComp))]
-                known = [x for x in loops if isinstance(x, ast.For) and self.kind_of(of, self._tv_of(of, fn, tv), x.iter)]
+                known = [x for x in loops if isinstance(x, ast.For) and self.kind_of(of, self.tvs.get(of.qual), x.iter)]
                 if loops and not known:
                     raise AnalysisError("%s: the iteration over the entries is not recognised" % short(of))
                 self._report(of, node, "returns True before every entry was examined (no %s failed so far)" % self.what, w)
         for (of, node, f) in unknown:
             raise AnalysisError("%s: the returned value '%s' is not determined by the %s outcomes" % (
                 short(of), src(of, node) if node is not None else "None", self.what))
-
-    def _tv_of(self, of, fn, tv):
-        if of is fn:
-            return tv
-        for (q, t) in self.memo:
-            if q == of.qual and t is not None:
-                return t
-        return None
 
 
 # -------------------------------------------------------------------- rules
@@ -985,10 +978,10 @@ def run(ctx: Context):
             tv_want = attr_path(tgt.elts[1].elts[0])
         else:
             raise AnchorVanished("unrecognised loop target in _evaluate_test_vectors")
-        is_cmp = lambda n: n.kind == "test" and bool(calls_at(n, "check_testv"))
+        is_cmp = lambda n: n.kind in ("test", "stmt") and bool(calls_at(n, "check_testv"))
         cmps = c6.find(is_cmp)
         if not cmps:
-            raise AnchorVanished("no check_testv test in _evaluate_test_vectors")
+            raise AnchorVanished("no check_testv evaluation in _evaluate_test_vectors")
         SH = "%s[%s]" % (sh, sn)
         kinds = set()
         for n in cmps:
@@ -1019,7 +1012,7 @@ def run(ctx: Context):
         es = idx.resolve_name(fn.module, "EmptyShare")
         r.require(isinstance(es, ClassInfo) and es.qual == "allmydata.storage.mutable:EmptyShare", fn, fn.loc(),
                   "EmptyShare is not allmydata.storage.mutable.EmptyShare")
-        verdict_monitor(r, fn, is_cmp, "share's test vector", need_done=True)
+        ConjunctionVerdict(r, cg, lambda f_, c_: call_tail(c_) == "check_testv", "share's test vector", follow=False).judge(fn, tw)
 
     # -- 7. who may call the write path ----------------------------------------------
     with ctx.rule("C24.7", "R4", "the mutable write path is entered only through the guarded chain "
@@ -1098,3 +1091,23 @@ def run(ctx: Context):
                 r.violation(where, fn.loc(n.ast), "%s (raised in %s) can abort _evaluate_write_vectors at %s after an earlier "
                             "share of the same request was already modified, and nothing validates it before the first "
                             "write: the request is applied to some shares only" % (name, where.split(":", 1)[1], src(fn, n.ast)))
+
+    # -- 9. the verdict of one share is the conjunction of all its comparisons -----------
+    with ctx.rule("C24.9", "R1/R2", "check_testv of an existing share and of a missing share (and any helper they delegate "
+                  "to): falsy as soon as one comparison of the share's test vector failed, True only after every entry "
+                  "of the vector was compared and none failed", expected=2) as r:
+        tc = idx.func("storage.mutable:testv_compare")
+
+        def is_compare(f_, c_):
+            return call_tail(c_) == "testv_compare" and (tc in cg.resolve(f_, c_) or not cg.resolve(f_, c_))
+        mon = ConjunctionVerdict(r, cg, is_compare, "test vector comparison")
+        for cq, role in ((MSF, "existing share"), ("storage.mutable:EmptyShare", "missing share")):
+            ci = idx.cls(cq)
+            fn = ci.lookup("check_testv")
+            if fn is None:
+                raise AnchorVanished("%s has no check_testv" % cq)
+            ps = first_positional_params(fn)
+            if not ps:
+                raise AnchorVanished("%s takes no test vector" % short(fn))
+            r.site(fn, None, role)
+            mon.judge(fn, ps[0])
